@@ -848,20 +848,20 @@ def replay(rec):
     acc = Acc()
     k = case.get("kind")
     if k == "dur-value":
-        check_value(acc, case["ns"])
+        guarded(acc, "C03/duration/value", case, check_value, case["ns"])
     elif k in ("dur-unary", "dur-scalar"):
-        check_value(acc, case["a"])
+        guarded(acc, "C03/duration/value", case, check_value, case["a"])
     elif k == "dur-factory":
         n = case["n"]
         if isinstance(n, dict):
             n = float.fromhex(n["float"])
-        check_factory(acc, case["unit"], n)
+        guarded(acc, "C03/duration/from_" + case["unit"], case, check_factory, case["unit"], n)
     elif k in ("dur-binop", "dur-compare"):
-        check_pair(acc, case["a"], case["b"], mk(case["a"]), mk(case["b"]))
+        guarded(acc, "C03/duration/pair", case, check_pair, case["a"], case["b"], mk(case["a"]), mk(case["b"]))
     elif k in ("inst-value", "inst-dur", "inst-plus", "inst-safe"):
         durs = [case["d"]] if "d" in case else [0, 1, -1]
         offs = [case["o"]] if "o" in case else [0, M.OFF_MAX_S, M.OFF_MIN_S]
-        check_instant_value(acc, case["ns"], durs, offs)
+        guarded(acc, "C03/instant/value", case, check_instant_value, case["ns"], durs, offs)
     elif k in ("inst-from-unix", "inst-from-utc"):
         acc.merge(w_inst_misc(0)[0])
     elif k and k.startswith("off-"):
